@@ -54,7 +54,7 @@ var profiles = map[string]profile{
 			"pkg/consensus/sync/sync.go":              {Swap: map[string]string{"time": pTime}},
 			"pkg/consensus/sync/request.go":           {Swap: map[string]string{"time": pTime, "context": pCtx}},
 			"pkg/consensus/sync/download.go":          {Swap: map[string]string{"go.uber.org/ratelimit": pRatelimit}},
-			"pkg/consensus/sync/peer_selection.go":    {Swap: map[string]string{"math/rand": pRand}},
+			"pkg/consensus/sync/peer_selection.go":    {Swap: map[string]string{"math/rand": pRand}, MapRanges: []string{"frequency"}}, // ties between equally common ids are broken by map order
 			"pkg/consensus/sync/block_sync.go":        {GoInline: true},
 			"pkg/consensus/sync/fast_sync.go":         {GoInline: true},
 			"pkg/blockchain/data_access.go":           {Swap: map[string]string{"golang.org/x/sync/errgroup": pErrgroup}},
